@@ -21,6 +21,10 @@
 //!  * all byte strings of length <= 6 over {00,01,02,7f,ff}, of length 7 and 8 over
 //!    {00,01,ff}, and all two-word strings over a 22-value word alphabet, fed to every
 //!    decoder.
+//!  * length boundary: hand-built images of a Script with one witness (thorough: also a
+//!    CoinPredicate predicate_data and a Script script_data) of exactly
+//!    VEC_DECODE_LIMIT-1 and VEC_DECODE_LIMIT bytes (VEC_DECODE_LIMIT+1: recorded only),
+//!    one at a time.
 //!  Decoders: Transaction, Input, Output, Receipt (the four the statement names).
 //!
 //! Oracle (same function `judge` for exploration, child processes and replay):
@@ -36,7 +40,7 @@
 //! input that kills a fresh child and reports `C02:<Decoder>:abort`. A counting global
 //! allocator records the largest single allocation request per decode (information).
 //!
-//! Keys: `C02:<Decoder>:{panic, abort, encoded-length, fixed-point}`.
+//! Keys: `C02:<Decoder>:{panic, abort, re-encode-failed, encoded-length, fixed-point}`.
 
 #[path = "../txcorpus.rs"]
 mod txcorpus;
@@ -235,7 +239,10 @@ where
             let consumed = bytes.len() - rest;
             match guard::catch_any(|| v.to_bytes()) {
                 Err(m) => {
-                    out.viol = Some((key("panic"), format!("re-encoding the decoded value {} panicked: {m}", short(&v))));
+                    out.viol = Some((
+                        key("re-encode-failed"),
+                        format!("the decoder accepted {consumed} bytes but the value it returned cannot be encoded ({m}): {}", short(&v)),
+                    ));
                 }
                 Ok(enc) => {
                     out.fp = Some(hash64(&(dec.code(), &enc)));
@@ -797,7 +804,10 @@ fn child_main() {
         for i in 0..n {
             let dev = Dev::from_wire(&wire[i * 25..(i + 1) * 25]);
             let is_pair = matches!(dev, Dev::Pair { .. });
-            let b = dev.apply(&seed);
+            let b: std::borrow::Cow<[u8]> = match dev {
+                Dev::None => std::borrow::Cow::Borrowed(&seed[..]),
+                _ => std::borrow::Cow::Owned(dev.apply(&seed)),
+            };
             let j = judge(dec, &b);
             *outcomes.entry(j.label).or_insert(0) += 1;
             if let Some(fp) = j.fp {
@@ -851,16 +861,18 @@ impl Child {
     }
 
     fn run_batch(&mut self, dec: Dec, seed: &[u8], devs: &[Dev]) -> std::io::Result<Value> {
-        let mut msg = Vec::with_capacity(16 + seed.len() + devs.len() * 25);
-        msg.push(MAGIC);
-        msg.push(dec.code());
-        msg.extend_from_slice(&(seed.len() as u32).to_le_bytes());
-        msg.extend_from_slice(seed);
-        msg.extend_from_slice(&(devs.len() as u32).to_le_bytes());
+        let mut head = Vec::with_capacity(6);
+        head.push(MAGIC);
+        head.push(dec.code());
+        head.extend_from_slice(&(seed.len() as u32).to_le_bytes());
+        let mut tail = Vec::with_capacity(4 + devs.len() * 25);
+        tail.extend_from_slice(&(devs.len() as u32).to_le_bytes());
         for d in devs {
-            msg.extend_from_slice(&d.to_wire());
+            tail.extend_from_slice(&d.to_wire());
         }
-        self.stdin.write_all(&msg)?;
+        self.stdin.write_all(&head)?;
+        self.stdin.write_all(seed)?;
+        self.stdin.write_all(&tail)?;
         self.stdin.flush()?;
         let mut lb = [0u8; 4];
         self.stdout.read_exact(&mut lb)?;
@@ -949,6 +961,115 @@ fn run_batch_supervised(child: &mut Option<Child>, seed: &Seed, devs: &[Dev], ac
                 let (a, b) = devs.split_at(devs.len() / 2);
                 run_batch_supervised(child, seed, a, acc, sup);
                 run_batch_supervised(child, seed, b, acc, sup);
+            }
+        }
+    }
+}
+
+// ------------------------------------------------------------------ length boundary
+//
+// Wire images whose last byte vector has exactly VEC_DECODE_LIMIT-1 / VEC_DECODE_LIMIT
+// bytes (the longest the decoder accepts) and, for information only, VEC_DECODE_LIMIT+1.
+// Built by hand from the encoding of the same value with that vector empty (the length
+// word is patched, the payload appended), so that the harness never needs the subject's
+// encoder to produce them. ~100 MiB each: one child, one case at a time.
+
+const BOUNDARY_FAMILIES: [&str; 3] = ["tx-witness", "input-predicate-data", "script-data"];
+
+fn boundary_len_name(n: usize) -> String {
+    match n as i128 - VEC_DECODE_LIMIT as i128 {
+        0 => "VEC_DECODE_LIMIT".to_string(),
+        d if d < 0 => format!("VEC_DECODE_LIMIT{d}"),
+        d => format!("VEC_DECODE_LIMIT+{d}"),
+    }
+}
+
+fn boundary_bytes(family: &str, n: usize) -> (Dec, Vec<u8>) {
+    use fuel_tx::{
+        policies::Policies,
+        Witness,
+    };
+    let (dec, mut b, len_word) = match family {
+        "tx-witness" => {
+            // Script with nothing but one empty witness: the witness length word is last
+            let tx: Transaction =
+                Transaction::script(0, vec![], vec![], Policies::new(), vec![], vec![], vec![Witness::default()]).into();
+            let b = tx.to_bytes();
+            let w = b.len() / 8 - 1;
+            (Dec::Transaction, b, w)
+        }
+        "input-predicate-data" => {
+            // one-byte predicate (one padded word), empty predicate data; words 19/20 of
+            // the fixed part are predicateLength / predicateDataLength
+            let i = Input::coin_predicate(
+                Default::default(),
+                Default::default(),
+                1,
+                Default::default(),
+                Default::default(),
+                2,
+                vec![0x24],
+                vec![],
+            );
+            let b = i.to_bytes();
+            assert_eq!(b.len(), 176, "unexpected CoinPredicate layout");
+            assert_eq!(word_at(&b, 19), 1, "unexpected CoinPredicate layout");
+            (Dec::Input, b, 20)
+        }
+        "script-data" => {
+            // empty script, policies, inputs, outputs, witnesses: script data is the only
+            // dynamic part; word 7 is scriptDataLength
+            let tx: Transaction = Transaction::script(3, vec![], vec![], Policies::new(), vec![], vec![], vec![]).into();
+            let b = tx.to_bytes();
+            assert_eq!(b.len(), 96, "unexpected Script layout");
+            (Dec::Transaction, b, 7)
+        }
+        other => panic!("unknown boundary family {other}"),
+    };
+    assert_eq!(word_at(&b, len_word as u32), 0, "length word of the empty vector");
+    set_word(&mut b, len_word as u32, n as u64);
+    b.resize(b.len() + n, 0xAB);
+    b.resize(b.len() + (8 - n % 8) % 8, 0);
+    (dec, b)
+}
+
+/// Judge one boundary image in the child. `info_only`: record the outcome, demand nothing.
+fn run_boundary(child: &mut Option<Child>, family: &str, n: usize, info_only: bool, acc: &mut Acc) {
+    let (dec, bytes) = boundary_bytes(family, n);
+    let label = format!("boundary {family} len={}", boundary_len_name(n));
+    let case = json!({"decoder": dec.name(), "boundary": family, "len": n});
+    acc.evals += 1;
+    let c = child.get_or_insert_with(Child::spawn);
+    match c.run_batch(dec, &bytes, &[Dev::None]) {
+        Ok(reply) => {
+            let outcome = reply["outcomes"].as_object().and_then(|o| o.keys().next().cloned()).unwrap_or_default();
+            acc.outcome(&format!("{}{label}: {outcome}", if info_only { "info " } else { "" }), 1);
+            if info_only {
+                return
+            }
+            for fp in reply["fps"].as_array().into_iter().flatten() {
+                if let Some(h) = fp.as_u64() {
+                    acc.fps.insert(h);
+                }
+            }
+            for v in reply["viols"].as_array().into_iter().flatten() {
+                acc.viol(
+                    v[1].as_str().unwrap_or("").to_string(),
+                    format!("{} [{label}]", v[2].as_str().unwrap_or("")),
+                    case.clone(),
+                );
+            }
+        }
+        Err(_) => {
+            let obit = child.take().map(|c| c.obituary()).unwrap_or_default();
+            acc.child_restarts += 1;
+            acc.outcome(&format!("{}{label}: decoder_process_died", if info_only { "info " } else { "" }), 1);
+            if !info_only {
+                acc.viol(
+                    format!("C02:{}:abort", dec.name()),
+                    format!("the process died while decoding ({obit}) [{label}]"),
+                    case,
+                );
             }
         }
     }
@@ -1135,6 +1256,26 @@ fn explore(ctx: &Ctx) {
     for (_, acc) in results.into_inner().unwrap() {
         acc.flush(ctx, &mut totals);
     }
+    // ---- length boundary of byte vectors: ~100 MiB per image, one at a time
+    if !stop.load(Ordering::Relaxed) {
+        let mut acc = Acc::default();
+        let mut child: Option<Child> = None;
+        let lens = [VEC_DECODE_LIMIT - 1, VEC_DECODE_LIMIT, VEC_DECODE_LIMIT + 1];
+        // touching fresh 100 MiB buffers dominates: quick = witness only, thorough = all
+        let families = &BOUNDARY_FAMILIES[..ctx.pick(1, BOUNDARY_FAMILIES.len())];
+        for family in families {
+            for n in lens {
+                run_boundary(&mut child, family, n, n > VEC_DECODE_LIMIT, &mut acc);
+            }
+        }
+        acc.flush(ctx, &mut totals);
+        ctx.set(
+            "length_boundary",
+            json!({"families": families, "lengths": lens.iter().map(|n| boundary_len_name(*n)).collect::<Vec<_>>(),
+                   "VEC_DECODE_LIMIT": VEC_DECODE_LIMIT,
+                   "oracle": "same oracle for lengths <= VEC_DECODE_LIMIT (accepted by the decoder => re-encodable, same length, fixed point); VEC_DECODE_LIMIT+1 recorded as info outcome only"}),
+        );
+    }
     if stop.load(Ordering::Relaxed) {
         ctx.cap(format!(
             "stopped after {} inputs had each killed a fresh decoder process ({} cases not run, {} seeds skipped)",
@@ -1193,6 +1334,15 @@ fn explore(ctx: &Ctx) {
 }
 
 fn replay(case: &Value, ctx: &Ctx) {
+    if let Some(family) = case["boundary"].as_str() {
+        let mut acc = Acc::default();
+        let mut child = None;
+        run_boundary(&mut child, family, case["len"].as_u64().expect("len") as usize, false, &mut acc);
+        for (key, (what, _, _)) in acc.viols {
+            ctx.violation(key, what, case.clone());
+        }
+        return
+    }
     let dec = Dec::from_name(case["decoder"].as_str().expect("decoder"));
     let bytes = hex::decode(case["bytes"].as_str().expect("bytes")).expect("hex");
     let seed = Seed {
